@@ -190,3 +190,35 @@ pub(crate) fn mk_line(epoch: usize, token: Option<CollectToken>, queue: SpanQueu
     };
     SpanLine { span_queue: queue, epoch, collect_token: token, is_sampled }
 }
+
+// C09 / C10 / C02: a scope that has reached its span limit still FINISHES the spans it recorded
+// (finishing needs no free slot): the local parent is restored step by step, tokens follow.
+#[kani::proof]
+#[kani::unwind(3)]
+fn sl_full_scope_still_finishes() {
+    idgen::install_symbolic_generator();
+    let a = any_item(true);
+    let mut line = SpanLine::new(2, 0, Some(vec![a]));
+    let h1 = line.start_span(N_A).unwrap();
+    let id1 = line.span_queue.current_parent_id().unwrap();
+    let h2 = line.start_span(N_A).unwrap(); // the scope is now at its limit
+    assert!(line.start_span(N_A).is_none(), "span recorded beyond the limit");
+    line.add_event(Event::new(N_EV));
+    line.finish_span(h2);
+    assert!(line.span_queue.current_parent_id() == Some(id1), "a scope at its span limit did not finish a recorded span: stale local parent");
+    let t = line.current_collect_token().unwrap();
+    assert!(t[0].parent_id == id1, "token parent is a span that has already finished");
+    line.finish_span(h1);
+    assert!(line.span_queue.current_parent_id().is_none());
+    let t2 = line.current_collect_token().unwrap();
+    assert!(t2[0] == a, "after all local spans finished the scope's own parent must be restored");
+    let q = line.span_queue.take_queue();
+    assert!(q.len() == 2 && q[0].end_instant != fastant::Instant::ZERO && q[1].end_instant != fastant::Instant::ZERO, "a recorded span was left without an end instant");
+    std::mem::forget((q, t, t2));
+    kani::cover!(true);
+}
+
+/// Helper for other harness modules.
+pub(crate) fn mk_local_handle(epoch: usize, index: usize) -> LocalSpanHandle {
+    LocalSpanHandle { span_line_epoch: epoch, span_handle: crate::local::span_queue::verif_harness::mk_handle(index) }
+}
